@@ -159,6 +159,11 @@ pub struct Profile {
     /// force 512-byte refcount-block cache slices (and 512-byte blocks): a refcount block then
     /// consists of many slices, which the allocator walks one by one
     pub small_rb_slices_pct: u32,
+    /// percent of built images with garbage-filled free clusters behind the last used one
+    pub stale_tail_pct: u32,
+    /// percent of 1 KiB-cluster images with 33..63 L1 entries (4..8 MiB): L2 tables cached as
+    /// two slices whose L1 entries sit in the second half of an L1 block
+    pub tall_l1_pct: u32,
 }
 
 impl Default for Profile {
@@ -182,6 +187,8 @@ impl Default for Profile {
             vsize_weights: [30, 40, 20, 10],
             max_discard_clusters: 8,
             small_rb_slices_pct: 0,
+            stale_tail_pct: 40,
+            tall_l1_pct: 0,
             max_write_clusters: 8,
             order_weights: None,
         }
@@ -230,6 +237,8 @@ pub fn gen_vsize(s: &mut Src, cb: u8, align_bits: u8, p: &Profile) -> u64 {
     let big = cb >= 17;
     let n = if big {
         1 + s.pick(6) as u64
+    } else if p.tall_l1_pct > 0 && p.multi_l1 && cb == 10 && s.chance(p.tall_l1_pct, 100) {
+        l2e * (33 + s.pick(31) as u64) - s.pick(8) as u64
     } else if p.multi_l1 && cb == 9 && s.chance(p.wide_l1_pct, 100) {
         // wide L1: more than 64 entries, i.e. the L1 table spans several 512-byte blocks of
         // the top-table dirty-block queue (2..2.3 MiB virtual size)
@@ -320,6 +329,9 @@ pub fn gen_built(s: &mut Src, img: &[[u16; 2]], cb: u8, ro: u8, version: u8, vsi
     if p.l1_short_pct > 0 && s.chance(p.l1_short_pct, 100) {
         spec.l1_short = true;
         spec.l1_extra = 0;
+    }
+    if s.chance(p.stale_tail_pct, 100) {
+        spec.stale_tail = 4 + s.pick(60) as u8;
     }
     spec
 }
